@@ -360,6 +360,15 @@ theorem region_key_roundtrip (ks : Keyspace) (hv : ks.valid = true) (k s e : Byt
       simp only [encodeKey] at h1 h2 h3 hpre hdrop
       simp [decodeRange, h1, h2, h3, hpre, hdrop, isPrefix_append, encodeKey]
 
+/-- NOT PROVED (full statement kept per convention): region keys preserve the logical order, i.e. the memcomparable
+    encoding is monotone — this is C19's `encodeBytes` order theorem composed with `encode_order_iso`; here it is only
+    validated by the `ord` property op on both sides. -/
+def region_key_order_iso : Prop :=
+  ∀ (ks : Keyspace) (a b : Bytes), Bytes.cmp (encodeRegionKey ks a) (encodeRegionKey ks b) = Bytes.cmp a b
+
+/-- non-vacuity of the `valid` hypothesis used throughout (largest id, both modes) -/
+example : (⟨.raw, 16777215⟩ : Keyspace).valid = true ∧ (⟨.txn, 0⟩ : Keyspace).valid = true := by decide
+
 /-! ## the catalogue (regenerated from the observed behaviour of /repo on every run) -/
 
 /-- exception-free statement: every command row and every key-bearing field row satisfies the rule.
